@@ -196,7 +196,9 @@ Section Pass.
 
   (* ---- the rule loop of Pass::runGraphite in full: cursor adjustment (r_ret), the high-water mark, highpassed, the loop counter.
      Slots are addressed by their index in the stream; None is the null pointer. *)
-  Record lstate := mkls { ls_l : list slot; ls_s : option nat; ls_hw : option nat; ls_hp : bool; ls_lc : nat }.
+  Record lstate := mkls0 { ls_l : list slot; ls_s : option nat; ls_hw : option nat; ls_hp : bool; ls_lc : nat; ls_b : option nat; ls_dead : bool }.
+  (* ls_b: the remaining insert budget (SlotMap::m_maxSize; None = not tracked); ls_dead: an INSERT found it exhausted (the machine DIEs and gr_make_seg fails) *)
+  Definition mkls (l : list slot) (s hw : option nat) (hp : bool) (lc : nat) : lstate := mkls0 l s hw hp lc None false.
   Definition nxt (l : list slot) (k : nat) : option nat := if Nat.ltb (S k) (length l) then Some (S k) else None.
   Definition prv (k : nat) : option nat := match k with O => None | S j => Some j end.
   Definition oeq (a : option nat) (k : nat) : bool := match a with Some x => Nat.eqb x k | None => false end.
@@ -215,15 +217,18 @@ Section Pass.
 
   (* one item of a substitution rule executed at absolute index pos (the slot `is`): inserts, the item's own actions, delete, NEXT.
      Returns the stream, the index of `is` after NEXT, the high-water index and highpassed. *)
-  Fixpoint do_inserts (acts : list act) (l : list slot) (pos : nat) (hw : option nat) (hp : bool) : list slot * nat * option nat * bool :=
+  Fixpoint do_inserts (acts : list act) (l : list slot) (pos : nat) (hw : option nat) (hp : bool) (b : option nat) : list slot * nat * option nat * bool * option nat * bool :=
     match acts with
-    | [] => (l, pos, hw, hp)
+    | [] => (l, pos, hw, hp, b, false)
     | AInsert g :: rest =>
-        (* INSERT: if (is == highwater) highpassed = false; the new slot goes in front of `is`; then PUT_GLYPH; NEXT (the new slot is not the high-water slot) *)
+        (* INSERT: if (smap.decMax() <= 0) DIE; if (is == highwater) highpassed = false; the new slot goes in front of `is`; then PUT_GLYPH;
+           NEXT (the new slot is not the high-water slot) *)
+        let b1 := match b with Some n => Some (n - 1)%nat | None => None end in
+        if match b with Some n => Nat.leb n 1 | None => false end then (l, pos, hw, hp, b1, true) else
         let hp1 := if oeq hw pos then false else hp in
         let hw1 := match hw with Some h => if Nat.leb pos h then Some (S h) else Some h | None => None end in
-        do_inserts rest (insert_at l pos (mkslot g (adv g) 0)) (S pos) hw1 hp1
-    | _ :: rest => do_inserts rest l pos hw hp
+        do_inserts rest (insert_at l pos (mkslot g (adv g) 0)) (S pos) hw1 hp1 b1
+    | _ :: rest => do_inserts rest l pos hw hp b
     end.
   Fixpoint has_delete (acts : list act) : bool := match acts with [] => false | ADelete :: _ => true | _ :: r => has_delete r end.
   Fixpoint own_acts (rd : slot -> Z -> option slot) (acts : list act) (cur : slot) : slot :=
@@ -248,9 +253,10 @@ Section Pass.
                     end in
         own_acts rd rest cur'
     end.
-  Definition do_item (r : rule) (orig done : list slot) (j : nat) (acts : list act) (l : list slot) (pos : nat) (hw : option nat) (hp : bool)
-    : list slot * nat * option nat * bool * list slot :=
-    let '(l1, pos1, hw1, hp1) := do_inserts acts l pos hw hp in
+  Definition do_item (r : rule) (orig done : list slot) (j : nat) (acts : list act) (l : list slot) (pos : nat) (hw : option nat) (hp : bool) (b : option nat)
+    : list slot * nat * option nat * bool * list slot * option nat * bool :=
+    let '(l1, pos1, hw1, hp1, b1, dead) := do_inserts acts l pos hw hp b in
+    if dead then (l1, pos1, hw1, hp1, done, b1, true) else
     let cur0 := match nth_error l1 pos1 with Some s => s | None => mkslot 0 0 0 end in
     let live := fun (c : slot) (q : nat) => if Nat.ltb q j then nth_error done q else if Nat.eqb q j then Some c else nth_error orig q in
     let cur1 := own_acts (fun c ref => read_src r orig (live c) j ref) acts cur0 in
@@ -262,16 +268,17 @@ Section Pass.
       let l3 := remove_at l2 pos1 in
       let hw3 := match hw2 with Some h => if Nat.ltb pos1 h then Some (h - 1)%nat else Some h | None => None end in
       let hp3 := match prv pos1 with Some p => if oeq hw3 p then true else hp1 | None => hp1 end in
-      (l3, pos1, hw3, hp3, done')
+      (l3, pos1, hw3, hp3, done', b1, false)
     else
-      (l2, S pos1, hw1, (if oeq hw1 pos1 then true else hp1), done').
-  Fixpoint do_items (r : rule) (orig done : list slot) (j n : nat) (acts : list (list act)) (l : list slot) (pos : nat) (hw : option nat) (hp : bool)
-    : list slot * nat * option nat * bool :=
+      (l2, S pos1, hw1, (if oeq hw1 pos1 then true else hp1), done', b1, false).
+  Fixpoint do_items (r : rule) (orig done : list slot) (j n : nat) (acts : list (list act)) (l : list slot) (pos : nat) (hw : option nat) (hp : bool) (b : option nat)
+    : list slot * nat * option nat * bool * option nat * bool :=
     match n with
-    | O => (l, pos, hw, hp)
+    | O => (l, pos, hw, hp, b, false)
     | S n' => let al := match acts with a :: _ => a | [] => [] end in
-              let '(l1, pos1, hw1, hp1, done1) := do_item r orig done j al l pos hw hp in
-              do_items r orig done1 (S j) n' (match acts with _ :: ar => ar | [] => [] end) l1 pos1 hw1 hp1
+              let '(l1, pos1, hw1, hp1, done1, b1, dead) := do_item r orig done j al l pos hw hp b in
+              if dead then (l1, pos1, hw1, hp1, b1, true)
+              else do_items r orig done1 (S j) n' (match acts with _ :: ar => ar | [] => [] end) l1 pos1 hw1 hp1 b1
     end.
   (* a positioning item: actions in place (attachment included), then NEXT *)
   Fixpoint do_items_pos (r : rule) (orig : list slot) (st j n : nat) (acts : list (list act)) (l : list slot) (hw : option nat) (hp : bool) : list slot * option nat * bool :=
@@ -286,7 +293,7 @@ Section Pass.
   Definition fire (r : rule) (l : list slot) (i : nat) : list slot * nat :=
     let stw := (i - r_pre r)%nat in
     let window := firstn (r_sort r) (skipn stw l) in
-    let '(l', pos', _, _) := do_items r window (firstn (r_pre r) window) (r_pre r) (r_sort r - r_pre r) (r_acts r) l i None false in
+    let '(l', pos', _, _, _, _) := do_items r window (firstn (r_pre r) window) (r_pre r) (r_sort r - r_pre r) (r_acts r) l i None false None in
     (l', pos').
 
   (* the pass: scan left to right; [fuel] bounds the number of steps *)
@@ -347,9 +354,9 @@ Section Pass.
     | None => st
     | Some i =>
         let l := ls_l st in
-        let '(l1, s1, hw1, hp1) :=
+        let '(l1, s1, hw1, hp1, b1, dead) :=
           match select rules l i 0 None with
-          | None => (l, nxt l i, ls_hw st, ls_hp st)
+          | None => (l, nxt l i, ls_hw st, ls_hp st, ls_b st, false)
           | Some (_, r) =>
               let stw := (i - r_pre r)%nat in
               let window := firstn (r_sort r) (skipn stw l) in
@@ -357,23 +364,25 @@ Section Pass.
               if positioning then
                 let '(l', hw', hp') := do_items_pos r window stw (r_pre r) n (r_acts r) l (ls_hw st) false in
                 let out := if Nat.ltb (stw + r_sort r) (length l') then Some (stw + r_sort r)%nat else None in
-                let '(s', hp'') := adjust l' (r_ret r) out hw' hp' in (l', s', hw', hp'')
+                let '(s', hp'') := adjust l' (r_ret r) out hw' hp' in (l', s', hw', hp'', ls_b st, false)
               else
-                let '(l', pos', hw', hp') := do_items r window (firstn (r_pre r) window) (r_pre r) n (r_acts r) l i (ls_hw st) false in
+                let '(l', pos', hw', hp', b', dead) := do_items r window (firstn (r_pre r) window) (r_pre r) n (r_acts r) l i (ls_hw st) false (ls_b st) in
+                if dead then (l', None, hw', hp', b', true) else
                 let out := if Nat.ltb pos' (length l') then Some pos' else None in
-                let '(s', hp'') := adjust l' (r_ret r) out hw' hp' in (l', s', hw', hp'')
+                let '(s', hp'') := adjust l' (r_ret r) out hw' hp' in (l', s', hw', hp'', b', false)
           end in
+        if dead then mkls0 l1 None hw1 hp1 (ls_lc st) b1 true else
         (* if (s && (s == highwater || highpassed || --lc == 0)) { if (!lc) s = highwater; lc = maxloop; if (s) highwater(s->next) } *)
         match s1 with
-        | None => mkls l1 None hw1 hp1 (ls_lc st)
+        | None => mkls0 l1 None hw1 hp1 (ls_lc st) b1 false
         | Some k =>
-            if oeq hw1 k || hp1 then mkls l1 s1 (nxt l1 k) false maxloop
+            if oeq hw1 k || hp1 then mkls0 l1 s1 (nxt l1 k) false maxloop b1 false
             else if Nat.eqb (ls_lc st - 1) 0 then
               match hw1 with
-              | Some h => mkls l1 hw1 (nxt l1 h) false maxloop
-              | None => mkls l1 None hw1 hp1 maxloop
+              | Some h => mkls0 l1 hw1 (nxt l1 h) false maxloop b1 false
+              | None => mkls0 l1 None hw1 hp1 maxloop b1 false
               end
-            else mkls l1 s1 hw1 hp1 (ls_lc st - 1)
+            else mkls0 l1 s1 hw1 hp1 (ls_lc st - 1) b1 false
         end
     end.
   Fixpoint loop_run (positioning : bool) (maxloop : nat) (rules : list rule) (fuel : nat) (st : lstate) : lstate :=
@@ -381,18 +390,28 @@ Section Pass.
     | O => st
     | S f => match ls_s st with None => st | Some _ => loop_run positioning maxloop rules f (loop_step positioning maxloop rules st) end
     end.
-  Definition run_pass_adj (positioning : bool) (maxloop : nat) (rules : list rule) (l : list slot) : list slot :=
+  (* one pass with the insert budget: the stream and budget afterwards, or None when an INSERT found the budget exhausted *)
+  Definition run_pass_b (positioning : bool) (maxloop : nat) (rules : list rule) (l : list slot) (b : option nat) : option (list slot * option nat) :=
     match l with
-    | [] => l
-    | _ => ls_l (loop_run positioning maxloop rules (maxloop * (66 * length l + 2) + 1)
-                          (mkls l (Some O) (nxt l O) false maxloop))
+    | [] => Some (l, b)
+    | _ => let st := loop_run positioning maxloop rules (maxloop * (66 * length l + 2) + 1) (mkls0 l (Some O) (nxt l O) false maxloop b false) in
+           if ls_dead st then None else Some (ls_l st, ls_b st)
     end.
-  Fixpoint run_passes_adj_from (k nsubst : nat) (passes : list (nat * list rule)) (l : list slot) : list slot :=
+  Definition run_pass_adj (positioning : bool) (maxloop : nat) (rules : list rule) (l : list slot) : list slot :=
+    match run_pass_b positioning maxloop rules l None with Some (l', _) => l' | None => l end.
+  (* Silf::runGraphite: the substitution passes share one budget of 64 inserts per initial slot and each must end with at most that many
+     slots; the positioning passes cannot insert *)
+  Fixpoint run_passes_b (k nsubst : nat) (maxsize : nat) (passes : list (nat * list rule)) (l : list slot) (b : option nat) : option (list slot) :=
     match passes with
-    | [] => l
-    | (ml, p) :: rest => run_passes_adj_from (S k) nsubst rest (run_pass_adj (Nat.leb nsubst k) (Nat.max 1 ml) p l)
+    | [] => Some l
+    | (ml, p) :: rest =>
+        match run_pass_b (Nat.leb nsubst k) (Nat.max 1 ml) p l b with
+        | None => None
+        | Some (l', b') => if Nat.ltb k nsubst && Nat.ltb maxsize (length l') then None else run_passes_b (S k) nsubst maxsize rest l' b'
+        end
     end.
-  Definition run_passes_adj (nsubst : nat) (passes : list (nat * list rule)) (l : list slot) : list slot := run_passes_adj_from 0 nsubst passes l.
+  Definition run_passes_adj (nsubst : nat) (passes : list (nat * list rule)) (l : list slot) : option (list slot) :=
+    run_passes_b 0 nsubst (64 * length l) passes l (Some (64 * length l)%nat).
 
   (* final positioning of an unattached stream, left to right: origin = running advance + shift *)
   Fixpoint origins (l : list slot) (cur : Z) : list Z :=
